@@ -90,7 +90,7 @@ def make_reader(src, ignore_comments=True, file_path=None, source_form=None, **k
         reader = FortranStringReader(src, ignore_comments=ignore_comments, **kw)
     if source_form is not None:
         from fparser.common.sourceinfo import FortranFormat
-        reader.set_format(FortranFormat(source_form == "free", False))
+        reader.set_format(FortranFormat(source_form == "free", source_form == "f77"))
     return reader
 
 
